@@ -313,12 +313,22 @@ def run(name, prop, tier, seed, known, lock):
         return run_speclemmas(prop, tier, seed, known, lock)
     if name == 'ivbounded':
         return run_ivbounded(prop, tier, seed, known, lock)
+    if name == 'guards':
+        return run_guards(prop, tier, seed, known, lock)
     raise KeyError(name)
 
 
 def replay(d):
     if d.get('engine') == 'precframe':
         return replay_precframe(d)
+    if d.get('engine') == 'guards':
+        r = run_guards(d.get('property'), 'quick', 0, {'findings': []}, {})
+        for v in r['violations']:
+            if v[0] == d.get('obligation') or v[1].get('name') == d.get('obligation'):
+                print('contract still violated:', v[1]['replay'])
+                print('VIOLATION property=%s replay=%s' % (d.get('property'), d.get('obligation')))
+                return 1
+        return 0
     if d.get('engine') == 'ivbounded':
         r = run_ivbounded(d.get('property', 'C14'), 'quick', 0, {'findings': []}, {})
         for v in r['violations']:
@@ -675,4 +685,59 @@ def run_ivbounded(prop, tier, seed, known, lock):
         unit = {'target': 'mpmath.libmp.libmpi.' + f['op'], 'enum': {}, 'file': None}
         path = write_replay(prop, unit, rec, 'bounded exact-rational containment check failed on the real function')
         out['violations'].append((key, rec, path, ''))
+    return out
+
+
+# ======================================================================================= guarded returns
+
+def run_guards(prop, tier, seed, known, lock):
+    for p in (REPO, HERE):
+        if p not in sys.path:
+            sys.path.insert(0, p)
+    import threading
+    from pyvc import guards
+    from pyvc.check import write_replay, finding_matches
+    out = {'obligations': 0, 'discharged': 0, 'records': [], 'violations': [], 'undecided': [],
+           'known_hits': [], 'errors': [], 'samples': [], 'functions': [], 'assumptions': [
+               'guarded-return contracts: the tested data is not interpreted (user functions f, norm assumed deterministic); only which checks dominate which returns is decided'],
+           'coverage': {}}
+    res = {}
+
+    def work():
+        for sp in guards.SPECS.get(prop, []):
+            res[sp['name']] = (sp, guards.analyze_kwargs(REPO, sp) if sp.get('kind') == 'kwargs' else guards.analyze(REPO, sp))
+    sys.setrecursionlimit(15000)
+    threading.stack_size(512 * 1024 * 1024)
+    t = threading.Thread(target=work)
+    t.start()
+    t.join()
+    for name, (sp, r) in res.items():
+        key = 'guards|%s.%s' % (sp['file'][:-3].replace('/', '.'), sp['function'])
+        rec = {'name': key, 'kind': 'guards', 'clause': name, 'status': 'proved' if r['status'] == 'proved' else
+               ('sat' if r['status'] == 'violated' else 'unknown'), 'solver': 'path-enumeration',
+               'reason': r.get('reason'), 'paths': r.get('paths'), 'returning_paths': r.get('returning_paths')}
+        unit = {'target': key, 'enum': {}, 'file': sp['file']}
+        out['records'].append((key, rec, unit))
+        out['functions'].append(key)
+        if r['status'] == 'proved':
+            out['samples'].append({'obligation': name, 'paths': r.get('paths'), 'returning_paths': r.get('returning_paths')})
+        elif r['status'] == 'violated':
+            rec['replay'] = {'status': 'static-path', 'observed': r['bad'][0]['why'], 'trace': r['bad'][0].get('trace')}
+            rec['engine'] = 'guards'
+            suffix = ' no-failing-input-found'
+            if sp.get('replay'):
+                try:
+                    import mpmath
+                    obs = sp['replay'](mpmath.mp)
+                except Exception as ex:
+                    obs = None
+                if obs:
+                    rec['replay'] = {'status': 'reproduced', 'observed': obs, 'static': r['bad'][0]['why']}
+                    suffix = ''
+            path = write_replay(prop, unit, rec, 'contract violated on a path of the real function: ' + r['bad'][0]['why'])
+            out['violations'].append((key, rec, path, suffix))
+        else:
+            out['undecided'].append((key, 'guarded-return contract: %s (%s)' % (r['status'], r.get('reason'))))
+    out['obligations'] = len(out['records'])
+    out['discharged'] = sum(1 for k, rc, u in out['records'] if rc['status'] == 'proved')
     return out
